@@ -5,13 +5,16 @@ from oracle_util import *  # noqa
 from protocol import from_real, KEYS, KEY_IDX
 
 ID = "C14"
-LEAN_MODULE = None
+LEAN_MODULE = "SCoda.Props.C14"
 CLAUSES = [
-    ("every note stays inside the playable range", None),
-    ("every resulting note is the image of an original note with its pitch class shifted by exactly the interval", None),
-    ("returns true exactly when some note had to be moved by octaves", None),
-    ("when nothing is moved by octaves: exact shift, onsets/durations/velocities untouched, transposing back restores", None),
-    ("key signatures in the sequence and on bars are transposed by the same interval and never become undefined", None),
+    ("every note stays inside the playable range", ["SCoda.C14.in_range", "SCoda.C14.wrap_in_range", "SCoda.C14.settings_range"]),
+    ("every resulting note is the image of an original note with its pitch class shifted by exactly the interval",
+     ["SCoda.C14.image_list", "SCoda.C14.image_pointwise", "SCoda.C14.wrap_class"]),
+    ("returns true exactly when some note had to be moved by octaves", ["SCoda.C14.flag", "SCoda.C14.wrap_flag"]),
+    ("when nothing is moved by octaves: exact shift, onsets/durations/velocities untouched, transposing back restores",
+     ["SCoda.C14.exact", "SCoda.C14.inverse", "SCoda.C14.timing", "SCoda.C14.wrap_id"]),
+    ("key signatures are transposed by the same interval and never become undefined", ["SCoda.C14.key_defined", "SCoda.C20.transpose_tonic"]),
+    ("glue: after an octave wrap Sequence.transpose re-normalises and re-quantises note lengths, which only removes or shortens notes", None),
 ]
 RULE = ("well-formed sequences with key signatures, pitches near both range limits, x intervals -200..200 incl. 0 and multiples "
         "of 12; bars with and without key; non-trivial = has notes and interval != 0")
